@@ -9,27 +9,29 @@ Open Scope string_scope.
 
 Definition resolves_in_family (t : string * string * string) : bool :=
   let '(fam, name, _) := t in
-  match resolve name, resolve (underscore name) with
-  | Ok l1, Ok l2 =>
-      String.eqb (family_of l1) fam && String.eqb (family_of l2) fam
-  | _, _ => false
+  match resolve name, resolve (underscore name), resolve (hyphenate name) with
+  | Ok l1, Ok l2, Ok l3 =>
+      String.eqb (family_of l1) fam && String.eqb (family_of l2) fam && String.eqb (family_of l3) fam
+  | _, _, _ => false
   end.
 
 Lemma all_documented_names_resolve_b : forallb resolves_in_family doc_names = true.
 Proof. vm_compute. reflexivity. Qed.
 
 Lemma all_documented_names_resolve : forall fam name file, In (fam, name, file) doc_names ->
-  exists l1 l2, resolve name = Ok l1 /\ resolve (underscore name) = Ok l2 /\
-                family_of l1 = fam /\ family_of l2 = fam.
+  exists l1 l2 l3, resolve name = Ok l1 /\ resolve (underscore name) = Ok l2 /\ resolve (hyphenate name) = Ok l3 /\
+                family_of l1 = fam /\ family_of l2 = fam /\ family_of l3 = fam.
 Proof.
   intros fam name file Hin.
   pose proof (proj1 (forallb_forall _ _) all_documented_names_resolve_b _ Hin) as H.
   unfold resolves_in_family in H.
   destruct (resolve name) as [l1|]; [|discriminate].
   destruct (resolve (underscore name)) as [l2|]; [|discriminate].
-  apply andb_prop in H. destruct H as [H1 H2].
-  exists l1, l2. repeat split; auto; now apply String.eqb_eq.
+  destruct (resolve (hyphenate name)) as [l3|]; [|discriminate].
+  apply andb_prop in H. destruct H as [H12 H3]. apply andb_prop in H12. destruct H12 as [H1 H2].
+  exists l1, l2, l3. repeat split; auto; now apply String.eqb_eq.
 Qed.
+
 
 (** the loader reached through a name belongs to the dataset's family directory and validates the
     checksum; bundled: its own CSV.  (Cache-file and remote-file *names* follow no uniform convention in the
